@@ -12,6 +12,8 @@ _WVD = "mako.codegen:_GenerateRenderMethod.write_variable_declares"
 # ghost field of the printer: the set of lines handed to it so far (the real object has no such attribute; the
 # printer's own line accounting is C12, contracts/printer.py)
 CLASSES["Printer"].fields["emitted"] = parse_ty("Set[Str]")
+# a second ghost field: the lines that came first in a call of writeline / writelines (what a lookup sequence begins with)
+CLASSES["Printer"].fields["firsts"] = parse_ty("Set[Str]")
 CLASS("mako.parsetree:NamespaceTag", name="NsTag", fields={"attributes": "Dict[Str,Str]"})
 CLASSES["CompileCtx"].fields.update({k: parse_ty(v) for k, v in {
     "enable_loop": "Bool", "strict_undefined": "Bool", "has_ns_imports": "Bool", "has_imports": "Bool",
@@ -24,21 +26,24 @@ ASSUME("mako.codegen:_Identifiers.defs", params={"self": "Idents"}, returns="Set
 _GROWS = "forall(lambda k: implies(k in old(self.emitted), k in self.emitted), ty='Str')"
 _LOG = ["G.emit_n", "G.emit_last", "G.emit_prev", "G.dedents"]
 ASSUME("mako.pygen:PythonPrinter.writeline@" + _WVD, params={"self": "Printer", "line": "Opt[Str]"},
-       modifies=_LOG + ["self.emitted"],
+       modifies=_LOG + ["self.emitted", "self.firsts"],
        ensures=[("logged", "forall(lambda k: (k in self.emitted) == (k in old(self.emitted) or (line is not None and k == line)), ty='Str')"),
+                ("first", "forall(lambda k: (k in self.firsts) == (k in old(self.firsts) or (line is not None and k == line)), ty='Str')"),
                 ("last", "implies(line is not None, G.emit_last == the(line))")],
        raises={"*": {}}, note="the printer seen as the set of lines handed to it")
 ASSUME("mako.pygen:PythonPrinter.writelines@" + _WVD,
        params={"self": "Printer", "l0": "Opt[Str]=None", "l1": "Opt[Str]=None", "l2": "Opt[Str]=None", "l3": "Opt[Str]=None",
                "l4": "Opt[Str]=None", "l5": "Opt[Str]=None", "l6": "Opt[Str]=None", "l7": "Opt[Str]=None"},
-       modifies=_LOG + ["self.emitted"],
-       ensures=[("kept", _GROWS)] + [("l%d" % i, "implies(l%d is not None, the(l%d) in self.emitted)" % (i, i)) for i in range(8)],
+       modifies=_LOG + ["self.emitted", "self.firsts"],
+       ensures=[("kept", _GROWS), ("firsts-kept", "forall(lambda k: implies(k in old(self.firsts), k in self.firsts), ty='Str')"),
+                ("first-of-the-batch", "implies(l0 is not None, the(l0) in self.firsts)")] + [("l%d" % i, "implies(l%d is not None, the(l%d) in self.emitted)" % (i, i)) for i in range(8)],
        raises={"*": {}}, note="writelines(*lines) for at most eight lines: each one is handed to writeline")
 for _f in ("write_def_decl", "write_inline_def"):
     ASSUME("mako.codegen:_GenerateRenderMethod.%s@%s" % (_f, _WVD),
            params=dict({"self": "GenRM", "node": "TagLike", "identifiers": "Idents"}, **({"nested": "Bool=False"} if _f == "write_inline_def" else {})),
-           modifies=_LOG + ["self.printer.emitted"],
-           ensures=[("kept", "forall(lambda k: implies(k in old(self.printer.emitted), k in self.printer.emitted), ty='Str')")],
+           modifies=_LOG + ["self.printer.emitted", "self.printer.firsts"],
+           ensures=[("kept", "forall(lambda k: implies(k in old(self.printer.emitted), k in self.printer.emitted), ty='Str')"),
+                    ("firsts-kept", "forall(lambda k: implies(k in old(self.printer.firsts), k in self.printer.firsts), ty='Str')")],
            raises={"*": {}}, note="emits the def (its own contract: contracts/codegen_decls.py); lines already emitted stay emitted")
 # sorted(to_write, key=lambda ident: (ident in comp_idents, ident)) is modelled by the engine: same elements, keys never decrease
 
@@ -50,7 +55,7 @@ _E = "self.printer.emitted"
 _L_CTX = "('%s = context.get(%r, UNDEFINED)' % (k, k)) in " + _E
 _L_IMP = "('%s = _import_ns.get(%r, context.get(%r, UNDEFINED))' % (k, k, k)) in " + _E
 _L_STRICT = "('%s = context[%r]' % (k, k)) in " + _E + " and (\"raise NameError(\\\"'%s' is not defined\\\")\" % k) in " + _E
-_L_STRICT_IMP = "('%s = _import_ns.get(%r, UNDEFINED)' % (k, k)) in " + _E + " and ('if %s is UNDEFINED:' % k) in " + _E + " and " + _L_STRICT
+_L_STRICT_IMP = "('%s = _import_ns.get(%r, UNDEFINED)' % (k, k)) in self.printer.firsts and ('%s = _import_ns.get(%r, UNDEFINED)' % (k, k)) in " + _E + " and ('if %s is UNDEFINED:' % k) in " + _E + " and " + _L_STRICT
 _IMPORTS = "self.compiler.has_ns_imports"
 _STRICT = "self.compiler.strict_undefined"
 
@@ -69,11 +74,14 @@ C(_WVD,
   requires=[("sets-present", "identifiers.undeclared is not None and identifiers.argument_declared is not None and identifiers.locally_declared is not None and identifiers.closuredefs is not None"),
             ("the-log-is-ghost-state: none of the program's sets",
              "self.printer.emitted is not None and not same(self.printer.emitted, limit) and not same(self.printer.emitted, identifiers.undeclared) "
-             "and not same(self.printer.emitted, identifiers.argument_declared) and not same(self.printer.emitted, identifiers.locally_declared)")],
-  modifies=_LOG + [_E, "self.compiler.has_imports", "fresh_heap('set:Str')", "fresh_heap('list:Str')",
+             "and not same(self.printer.emitted, identifiers.argument_declared) and not same(self.printer.emitted, identifiers.locally_declared) "
+             "and self.printer.firsts is not None and not same(self.printer.firsts, self.printer.emitted) and not same(self.printer.firsts, limit) "
+             "and not same(self.printer.firsts, identifiers.undeclared) and not same(self.printer.firsts, identifiers.argument_declared) "
+             "and not same(self.printer.firsts, identifiers.locally_declared)")],
+  modifies=_LOG + [_E, "self.printer.firsts", "self.compiler.has_imports", "fresh_heap('set:Str')", "fresh_heap('list:Str')",
                    "fresh_heap('set:Obj[TagLike]')", "fresh_heap('ddom:Str~Obj[TagLike]')", "fresh_heap('dval:Str~Obj[TagLike]')"],
   loops={0: {"inv": [("lines-stay", "forall(lambda k: implies(k in pre(%s), k in %s), ty='Str')" % (_E, _E), "P")],
-             "modifies": _LOG + [_E]},
+             "modifies": _LOG + [_E, "self.printer.firsts"]},
          1: {"inv": [("no name is looked up that the function takes as an argument",
                       "forall(lambda k: implies(in_prefix(_s1, len(_s1), k), k not in pre(identifiers.argument_declared)), ty='Str')", "P"),
                      ("no name is looked up that the function binds itself",
@@ -87,8 +95,9 @@ C(_WVD,
                      ("names taken from the context are declared before the defs of this scope (whose argument defaults may read them)",
                       "forall(lambda i, j: implies(0 <= i and i < j and j < len(_s1) and _s1[i] in comp_idents, _s1[j] in comp_idents))", "P"),
                      ("lines-stay", "forall(lambda k: implies(k in pre(%s), k in %s), ty='Str')" % (_E, _E), "P")]
-                    + [(lab + " (so far)", expr.replace("old(", "pre("), "P") for lab, expr in _looked_up(_DONE)],
-             "modifies": _LOG + [_E]}},
+                    + [(lab + " (so far)", expr.replace("old(", "pre("), "P") for lab, expr in _looked_up(_DONE)]
+                    + [("first-lines-stay", "forall(lambda k: implies(k in pre(self.printer.firsts), k in self.printer.firsts), ty='Str')", "P")],
+             "modifies": _LOG + [_E, "self.printer.firsts"]}},
   ensures=_looked_up(_WANTED) + [("the writer is fetched last", "G.emit_last == '__M_writer = context.writer()'")],
   raises={"*": {}}, locals={"ident": "Str", "ns": "Obj[NsTag]"},
   props=_PROPS, native_skip=True,
